@@ -360,6 +360,15 @@ def run(ctx):
         (DT + ".string_list", "string_list", None, "split on whitespace"),
         (DT + ".Registry.register", "registry_register", DT + ".Registry",
          "no shadowing of stock or registered names"),
+        (DT + ".Registry.__init__", "registry_init", DT + ".Registry",
+         "own copy of the stock table, nothing registered"),
+        (DT + ".Registry.get", "registry_get", DT + ".Registry",
+         "basic-key normalisation of dot-free names; stock before "
+         "registered before search"),
+        (DT + ".Registry.search", "registry_search", DT + ".Registry",
+         "dotted Python name, import per component, remembered"),
+        (DT + ".Registry.find_name", "registry_find_name", DT + ".Registry",
+         "registered names before stock names"),
     ])
 
     # ------------------------------------------------------------------ R5
